@@ -8,6 +8,7 @@ import (
 	"net/url"
 	"os"
 	"strings"
+	"time"
 
 	"github.com/ftrvxmtrx/fd"
 
@@ -71,14 +72,48 @@ func listenUNIX(name string) (Listener, error) {
 }
 
 type pipeListener struct {
-	l *gonet.UnixListener
+	l       *gonet.UnixListener
+	streams chan Stream
+	errors  chan error
 }
 
+// exchangeTimeout bounds the exchange of descriptors with one peer.
+const exchangeTimeout = 5 * time.Second
+
 func (c pipeListener) Accept() (Stream, error) {
-	conn, err := c.l.AcceptUnix()
-	if err != nil {
+	select {
+	case stream := <-c.streams:
+		return stream, nil
+	case err := <-c.errors:
 		return nil, err
 	}
+}
+
+// serve accepts the connections and exchanges the descriptors with
+// each peer in a goroutine of its own: a peer which is slow, or which
+// fails the exchange, loses its connection and nothing else. Only
+// an error of the listening socket is an error of the listener.
+func (c pipeListener) serve() {
+	for {
+		conn, err := c.l.AcceptUnix()
+		if err != nil {
+			c.errors <- err
+			return
+		}
+		go func() {
+			stream, err := exchange(conn)
+			if err != nil {
+				log.Printf("pipe listener: %s", err)
+				conn.Close()
+				return
+			}
+			c.streams <- stream
+		}()
+	}
+}
+
+func exchange(conn *gonet.UnixConn) (Stream, error) {
+	conn.SetDeadline(time.Now().Add(exchangeTimeout))
 	fds, err := fd.Get(conn, 1, nil)
 	if err != nil {
 		return nil, err
@@ -88,12 +123,17 @@ func (c pipeListener) Accept() (Stream, error) {
 	}
 	r, w, err := os.Pipe()
 	if err != nil {
+		fds[0].Close()
 		return nil, err
 	}
 	err = fd.Put(conn, r)
 	if err != nil {
+		fds[0].Close()
+		r.Close()
+		w.Close()
 		return nil, err
 	}
+	conn.SetDeadline(time.Time{})
 	return PipeStream(fds[0], w), nil
 }
 
@@ -111,7 +151,9 @@ func listenPipe(name string) (Listener, error) {
 	if err != nil {
 		return nil, err
 	}
-	return pipeListener{conn}, nil
+	l := pipeListener{conn, make(chan Stream), make(chan error, 1)}
+	go l.serve()
+	return l, nil
 }
 
 // Listener accepts incomming connections in the form of Stream.
